@@ -203,9 +203,9 @@ def run(tier, seed):
         if g2 is None:
             continue
         # argv[0] differs between the drivers: compare from the code after the header on
-        a = g2.split('\n"""\n', 1)[-1]
+        a = clidrv.split_header(g2)[1]
         w = want[core.jdump(case)]
-        b = w.split('\n"""\n', 1)[-1]
+        b = clidrv.split_header(w)[1]
         if a != b:
             r.raw_violations.append((dict(case, subprocess=True), core.viol("in_process_driver_differs_from_subprocess", "driver", [], "")))
     r.extra["subprocess_bound_cases"] = n
